@@ -216,14 +216,17 @@ CLAIMED = {
         "DESIGN.md §7 C02",
     ),
     "C07": (
-        "Lean 4 exact characterisation of the gatherers as selections over the file system (membership iff designation, once per designation, hidden rule, explicit files, inversion = complement, filter field per mode, fnmatch basics) + differential test of the real traversal/filters on generated trees and of the glob matcher vs fnmatch",
+        "Lean 4 exact characterisation of the gatherers as selections over the file system (membership iff designation, once per designation, hidden rule, explicit files, inversion = complement, filter field per mode, fnmatch basics) and proof that the recursive traversal computes these selections (each entry once) + differential test of the real traversal/filters on generated trees and of the glob matcher vs fnmatch",
         "Proved in Lean: an entry is gathered iff it is a non-directory child (descendant with --recursive; a directory in "
         "directory mode) of the input directory with no hidden component below it unless hidden entries are included; "
         "explicit files get their parent as input directory and are not subject to the hidden rule; no gatherer yields an "
         "entry twice; --filter-invert selects exactly the complement within the gathered list (membership, counts, "
         "permutation) for every total filter; glob/regex filters look at the name (name/directory mode) or the relative "
-        "path (path mode). The selections are stated as filters over the file system; the pathlib recursion that computes "
-        "them is tied by correspondence: the entries the real run considers (all flag combinations, hidden entries at "
+        "path (path mode). Traversal = specification (gatherIn_spec, traversal_eq_recFileGather, "
+        "traversal_eq_recDirGather, gatherIn_nodup): a model of the _gather_in recursion (list the directory, skip hidden "
+        "names, yield or descend) is proved, on every well-formed tree and for every sufficient depth bound, to find "
+        "exactly the selected entries and each of them once; the driver runs this traversal model. Its tie to the real "
+        "pathlib recursion is the correspondence: the entries the real run considers (all flag combinations, hidden entries at "
         "every level, several roots, explicit files, glob/regex/template filters, inversion) are compared with the model "
         "and with a specification evaluated on the tree; the glob matcher is compared with fnmatch.fnmatchcase.",
         "Trusted: Lean kernel; pathlib glob/iterdir (correspondence); re and the meaning of the metadata tags in the oracle; "
